@@ -340,7 +340,10 @@ func execBlock(c blockCase) *blockRun {
 		if !a {
 			continue
 		}
-		tr := &burnTracer{}
+		tr := &burnTracer{createGas: 32000}
+		if c.Fork == 0 {
+			tr.createGas = 64000
+		}
 		seq.Prepare(txs[i].Hash(), common.Hash{}, k)
 		rc, _, err, panicked := applyReal(seq, gp, hdr, txs[i], &used, kvm.Config{Debug: true, Tracer: tr})
 		if panicked != "" || err != nil || rc == nil || rc.GasUsed != b.rcs[k].GasUsed || rc.Status != b.rcs[k].Status {
@@ -351,6 +354,9 @@ func execBlock(c blockCase) *blockRun {
 		}
 		if tr.burn != nil {
 			b.burn.Add(b.burn, tr.burn)
+		}
+		if tr.gasViol != "" {
+			b.fail("frame-gas-not-minted", fmt.Sprintf("tx %d: %s", i, tr.gasViol))
 		}
 		k++
 	}
